@@ -37,6 +37,7 @@ import vp
 
 CONSTS = {"SureDepth": 3, "MaxDepth": 64, "MaxGen": 65536}
 QUICK_SHAPES = "{1,2,3,6,7,13,16,19,22,24,26,32}"
+MID_SHAPES = "{1,2,3,4,5,6,7,9,11,13,14,16,17,19,21,22,24,26,27,29,32,34}"
 ALL_SHAPES = "{" + ",".join(str(i) for i in range(1, 36)) + "}"
 NSHAPES = 35
 
@@ -205,9 +206,10 @@ def run(ctx):
         idx = [{"c": rnd.randrange(8), "q": [rnd.randrange(1, NSHAPES + 1) for _ in range(rnd.randrange(4, 9))]} for _ in range(4000)]
         jobs = [
             lambda: ctx.tlc("MC_Present", consts={"StrLen": 6, "OctLen": 4}, workers=4, timeout=1800),
-            lambda: ctx.tlc("MC_Zone", consts=dict(MaxLines=3, ShapeSet=ALL_SHAPES, PolSet="{0, 15}"), workers=6, timeout=3000, xmx="12g"),
-            lambda: ctx.tlc("MC_Zone", consts=dict(MaxLines=8, ShapeSet=ALL_SHAPES, PolSet="{0, 15, 9, 6}"), workers=2, timeout=900,
-                            simulate="num=1500", depth=9),
+            lambda: ctx.tlc("MC_Zone", consts=dict(MaxLines=3, ShapeSet=MID_SHAPES, PolSet="{0, 15}"), workers=6, timeout=6000, xmx="12g"),   # 178 k states
+            lambda: ctx.tlc("MC_Zone", consts=dict(MaxLines=2, ShapeSet=ALL_SHAPES, PolSet="{0, 15, 9, 6}"), workers=2, timeout=6000),            # 40 k states
+            lambda: ctx.tlc("MC_Zone", consts=dict(MaxLines=6, ShapeSet=ALL_SHAPES, PolSet="{0, 15, 9, 6}"), workers=2, timeout=600,
+                            simulate="num=300", depth=7),       # longer random behaviours (bounded by the outer time-out)
             G("gen", 0, 1, [0]), G("file", 0, 1, [0], cases=QUIRKS),
         ]
         jobs += [G("seq", 2, 4, [k]) for k in range(4)]
